@@ -1,9 +1,9 @@
 package props
 
 import (
-	"math/big"
 	"bytes"
 	"fmt"
+	"math/big"
 	"regexp"
 	"strings"
 	"time"
@@ -33,8 +33,8 @@ func init() {
 			}
 			return 160
 		},
-		Run:  runC14,
-		Need: []string{"failed_txs_checked", "block_phases"},
+		Run:         runC14,
+		Need:        []string{"failed_txs_checked", "block_phases"},
 		Assumptions: []string{"a halt is observed as a Go panic escaping BaseApp.BeginBlock/EndBlock/Commit (what makes a CometBFT node stop)"},
 	})
 }
